@@ -284,6 +284,7 @@ type HarnessReport struct {
 	KnownPresent      int                    `json:"known_findings_present"`
 	Rounded           int                    `json:"inexact_operations_modelled"`
 	SymbolicMakes     int                    `json:"symbolic_allocation_sizes"`
+	Concretised       int                    `json:"symbolic_sizes_represented_by_extremes"`
 }
 
 type runOutcome struct {
@@ -561,7 +562,7 @@ func reportOf(ex *Explorer, h HarnessSpec) *HarnessReport {
 	r := &HarnessReport{Harness: h.Func, Package: h.Pkg, Paths: st.Paths, PanicPaths: st.PanicPaths, Aborted: st.Aborted,
 		ShapeForks: st.ShapeForks, SolverBranches: st.Branches, BranchesBoth: st.BranchesBoth, UnknownBranches: st.UnknownBranch,
 		Asserts: st.Asserts, Reach: st.Reach, Queries: st.SolverQueries, SolverTimeS: st.SolverTime.Seconds(),
-		MaxQueryS: st.SolverMaxQuery.Seconds(), WallS: st.Wall.Seconds(), Truncated: ex.Truncated, Rounded: st.Rounded, SymbolicMakes: st.SymbolicMakes}
+		MaxQueryS: st.SolverMaxQuery.Seconds(), WallS: st.Wall.Seconds(), Truncated: ex.Truncated, Rounded: st.Rounded, SymbolicMakes: st.SymbolicMakes, Concretised: st.Concretised}
 	ds := ex.SortedAbortDetails()
 	if len(ds) > 12 {
 		ds = ds[:12]
@@ -719,7 +720,19 @@ func ReplayFile(cfg *Config, file string) int {
 		return 2
 	}
 	defer os.RemoveAll(tmp)
-	_, real, err := buildOverlay(cfg, []string{rec.Package}, tmp)
+	// every harness directory takes part in the overlay (helpers are shared across packages)
+	dirs := []string{}
+	hroot := filepath.Join(cfg.Verif, "harness")
+	filepath.Walk(hroot, func(p string, info os.FileInfo, err error) error {
+		if err == nil && info.IsDir() && p != hroot && !strings.HasPrefix(info.Name(), "_") {
+			if m, _ := filepath.Glob(filepath.Join(p, "*.go")); len(m) > 0 {
+				rel, _ := filepath.Rel(hroot, p)
+				dirs = append(dirs, rel)
+			}
+		}
+		return nil
+	})
+	_, real, err := buildOverlay(cfg, dirs, tmp)
 	if err != nil {
 		fmt.Fprintln(os.Stderr, err)
 		return 2
